@@ -73,6 +73,9 @@
 
 pub mod agent;
 
+#[cfg(feature = "verif-hooks")]
+pub mod verif;
+
 pub use stun_types as types;
 
 #[derive(Clone)]
